@@ -589,6 +589,13 @@ def interp_rejection(spec, e) -> list[Fail]:
         return []
     if len(spec["values"]) < 2 or interp_collides(spec):
         return []
+    if spec.get("interpolator") == "interp1d" and times is not None and not spec.get("kwargs", {}).get("fill_value"):
+        # 'interp1d' does not extrapolate: with points that do not reach both ends of the waveform there are
+        # samples it cannot give.  Refusing the waveform is then legitimate (repair of F6.5: it used to be
+        # constructed and to raise when sampled); a waveform that IS constructed must give its samples.
+        pts = [int(round(float(t) * (spec["d"] - 1))) for t in times]
+        if min(pts) > 0 or max(pts) < spec["d"] - 1:
+            return []
     return [Fail("interp-spurious-reject", f"InterpolatedWaveform({spec['d']}, {len(spec['values'])} well separated "
                                            f"points) is refused: {e}", dict(interpolator=spec.get("interpolator")))]
 
